@@ -1,6 +1,7 @@
 // C12 — Gauss-Legendre rules are valid quadrature rules of every order on every interval.
 // M3: all orders n = 1..N (complete), x a fixed interval alphabet incl. reversed and far-from-origin intervals.
 #include "mc/mc.hpp"
+#include <set>
 #include "mc/exit_trap.hpp"
 #include "libphysica/Integration.hpp"
 using namespace libphysica;
@@ -34,6 +35,7 @@ static void reference_rule(int n, std::vector<ld>& z, std::vector<ld>& w)
 	if(n % 2) z[n / 2] = 0;
 }
 
+static bool g_sparse_orders = false;	// quick tier beyond n = 128: few orders, every one with the overload part
 static void check_rule(unsigned n, double a, double b)
 {
 	std::string key = "n=" + std::to_string(n) + ",a=" + mc::dec(a) + ",b=" + mc::dec(b);
@@ -105,7 +107,7 @@ static void check_rule(unsigned n, double a, double b)
 		mc::maxi("exactness_defect_over_tol", (double)std::max(fabsl(sp[k] - ep), fabsl(sm[k] - em)) / tol, key + ",k=" + std::to_string(k));
 	}
 	// overloads
-	if(n <= 64 || n % 37 == 0)
+	if(n <= 64 || n % 37 == 0 || g_sparse_orders)
 	{
 		auto f = [](double x) { return 1.0 / (1.0 + 0.01 * x * x) + std::sin(0.001 * x); };
 		std::vector<double> fv(n);
@@ -130,15 +132,23 @@ int main(int argc, char** argv)
 	int fd = open("/dev/null", O_WRONLY);
 	dup2(fd, 2);
 	std::vector<unsigned> orders;
-	unsigned nfull = mc::thorough() ? 1024 : 128;
+	unsigned nfull = mc::thorough() ? 2048 : 128;
 	for(unsigned n = 1; n <= nfull; n++) orders.push_back(n);
-	if(mc::quick()) for(unsigned n : {255u, 256u, 511u, 512u}) orders.push_back(n);
-	else for(unsigned n : {1500u, 2000u, 2047u, 2048u, 3000u, 4000u}) orders.push_back(n);
+	// beyond the complete range: every 37th order (thorough: every 5th) up to 4096, and the powers of two with their neighbours
+	// (integer overflow of n^2, n^3 in 32 bits starts at n = 65536 and n = 1626; block sizes and parity effects sit at 2^k)
+	{
+		std::set<unsigned> extra;
+		for(unsigned n = nfull + 1; n <= 4096; n += (mc::thorough() ? 5 : 37)) extra.insert(n);
+		for(unsigned k = 7; k <= 12; k++)
+			for(int d = -1; d <= 2; d++) if((1u << k) + d > nfull && (1u << k) + d <= 4100) extra.insert((1u << k) + d);
+		for(unsigned n : extra) orders.push_back(n);
+	}
+	g_sparse_orders = mc::quick();
 	// (the last three: intervals narrower than any absolute width threshold, still resolved by doubles because they sit at the origin)
 	std::vector<std::pair<double, double>> ivs = {{-1, 1}, {0, 1}, {2, 7}, {-1e3, 1e-3}, {1e6, 1e6 + 1}, {1, -1}, {7, 2}, {0, 1e-20}, {3e-27, 7e-27}, {-1e-300, 1e-300}};
 	mc::alphabet("orders", orders.size());
 	mc::alphabet("intervals", ivs.size());
-	mc::bound("rule", "every order n=1.." + std::to_string(nfull) + " (complete) plus large orders, x 10 intervals (shifted, far from the origin, reversed, narrower than 1e-16); all ordered pairs of orders up to 32/64 computed back to back (identical bits whatever was computed before); per rule: node order/inclusion/symmetry, weight sign/symmetry/sum, exactness on the Legendre basis and on monomials for every degree k<=min(2n-1,60), agreement with a long-double Newton reference started from Tricomi's guess, identical bits from the three Integrate_Gauss_Legendre overloads, length mismatch rejected; non-trivial = rules with n>=2");
+	mc::bound("rule", "every order n=1.." + std::to_string(nfull) + " (complete) plus every " + std::string(mc::thorough() ? "5th" : "37th") + " order and the powers of two with their neighbours up to 4096, x 10 intervals (shifted, far from the origin, reversed, narrower than 1e-16); all ordered pairs of orders up to 32/64 computed back to back (identical bits whatever was computed before); per rule: node order/inclusion/symmetry, weight sign/symmetry/sum, exactness on the Legendre basis and on monomials for every degree k<=min(2n-1,60), agreement with a long-double Newton reference started from Tricomi's guess, identical bits from the three Integrate_Gauss_Legendre overloads, length mismatch rejected; non-trivial = rules with n>=2");
 	unsigned long long unit = 0;
 	// larger orders first so that shards are balanced
 	std::sort(orders.begin(), orders.end(), std::greater<unsigned>());
@@ -146,6 +156,12 @@ int main(int argc, char** argv)
 	{
 		if(!mc::mine(unit++)) continue;
 		if(mc::out_of_time("C12")) break;
+		if(n > 128)
+		{
+			// a rule that never comes back must not take the shard with it: first once in a child with a time limit
+			auto o = mc::isolate([&](std::function<void(const std::string&)> out) { auto r = Compute_Gauss_Legendre_Roots_and_Weights(n, -1, 1); out(std::to_string(r.size())); }, 30.0);
+			if(o.kind != mc::Outcome::RETURNED) { fail("n=" + std::to_string(n) + ",a=-1,b=1", o.kind == mc::Outcome::TIMEOUT ? "does_not_terminate" : "terminated_process", std::string("Compute_Gauss_Legendre_Roots_and_Weights: ") + o.name()); continue; }
+		}
 		for(auto& iv : ivs) check_rule(n, iv.first, iv.second);
 	}
 	// call histories: the rule of order n2 does not depend on the order computed before it (all ordered pairs, every entry point)
